@@ -240,6 +240,24 @@ class Engine:
             w('    def run(self, *args, **kwds):')
             w('        return None')
             w('')
+        if self.desc.get('unlisted') and self.style == 'custom' and mine:
+            # a complete, self-registering element that the package's own
+            # hand-written factory does not hand out (a draft): not part of the engine
+            w('class A_unlisted(dawgie.%s):' % BASE[mine[0]['k']])
+            w('    def __init__(self):')
+            w('        dawgie.%s.__init__(self)' % BASE[mine[0]['k']])
+            w('        self._version_ = dawgie.VERSION(1, 0, 0)')
+            w('    def name(self):')
+            w("        return 'unlisted'")
+            w('    def %s(self):' % DEPM[mine[0]['k']])
+            w('        return []')
+            w('    def feedback(self):')
+            w('        return []')
+            w('    def state_vectors(self):')
+            w('        return [SV_%s_%s()]' % (ident(mine[0]['n']), ident(mine[0]['svs'][0]['n'])))
+            w('    def run(self, *args, **kwds):')
+            w('        return None')
+            w('')
         for a in mine:
             an = ident(a['n'])
             for s in a['svs']:
